@@ -774,6 +774,7 @@ func init() {
 		TypeSpec{K: KPoint, W: WPtr}, TypeSpec{K: KVocab}, TypeSpec{K: KPicky},
 		TypeSpec{K: KOnOff}, TypeSpec{K: KOnOff, W: WSlice}, TypeSpec{K: KOnOff, W: WPtr},
 		TypeSpec{K: KInt, W: WMap, MapKey: KRes}, TypeSpec{K: KRes},
+		TypeSpec{K: KString, W: WFunc1PErr},
 	)
 	typesAll = append(append([]TypeSpec{}, typesAllArgs...), typesFlags...)
 	typesAll = append(typesAll, typesFlags...) // weight flags a little higher
